@@ -38,3 +38,27 @@ def register(claim, na):
         "symbolic execution of modifier methods on sympy symbols + z3 QF_NRA per entry (inductive step per modifier); ground numeric compare for power/exp",
         "DESIGN.md §1 E1, §2 C07",
     )
+    claim(
+        "C06", "model_checking",
+        "Symbolic model checking of bind(): for every parametric built-in gate, a custom gate, controlled/dagger wrapped gates, "
+        "MultiPhaseOperation/ResetOperation and circuits (explicit and inferred width), with parameter expressions of depth <= 2 over three "
+        "symbols and ten map shapes (empty, partial, total, superfluous, numeric, symbol-valued, expression-valued, two-step), z3 decides for all "
+        "values that bind-then-evaluate equals evaluate-then-substitute (gate matrices and circuit unitaries) and that bound parameters are the "
+        "substituted expressions; free_symbols lists/order, width preservation and the power/exp refusal are compared concretely on the same runs.",
+        "Trusted: sympy subs as the oracle of substitution (simultaneous), translator (Fourier cross-check + replay), z3. Maps do not chain "
+        "(no value mentions a key): for chained maps sympy's sequential subs makes 'substituting afterwards' ambiguous, outside the claim.",
+        "symbolic execution of bind/free_symbols on sympy symbols + z3 QF_NRA identity in the substituted symbols",
+        "DESIGN.md §1 E1, §2 C06",
+    )
+    claim(
+        "C08", "model_checking",
+        "Symbolic model checking of Circuit.inverse / controlled / layer builders / add_ancilla_register on circuits of <= 3 operations "
+        "(n <= 3) over parametric, self-adjoint, wrapped and custom gates: z3 decides for all parameter values that the inverse is the "
+        "conjugate transpose, circuit+inverse is the identity (unitary gates), double inverse keeps the action, controlled(k) is "
+        "|0><0|xI + |1><1|xU with shifted indices for every control position, a layer is the tensor product with row i on qubit i, and "
+        "ancillas act as U x I; structural clauses (one gate per distinct qubit, rows used once, inputs untouched) are compared concretely.",
+        "Trusted: sympy, translator (Fourier cross-check + replay), z3. Power/exp-wrapped gates are ground instances. Parameter rows are "
+        "Python lists of symbols. Known finding F2-inverse (fractional power of a self-adjoint-flagged gate).",
+        "symbolic execution of circuit constructions on sympy symbols + z3 QF_NRA identity checking against algebraic oracles",
+        "DESIGN.md §1 E1, §2 C08",
+    )
